@@ -104,6 +104,20 @@ def _describe(case, ev):
         brief = {a: (b[:16] if isinstance(b, list) else b) for a, b in ev.items()}
         return ("Mac Roman codec: %s" % json.dumps(brief)[:500],
                 {"part": "codec", "event": ev["ev"], "panic": ev["panic"]})
+    if k == "codechist":
+        ops = " ".join("%s(%d)" % (o["op"], o["a"]) for o in case["ops"])
+        changed = [i for i, c in enumerate(ev["calls"]) if c["final"] != c["first"] or c["final2"] != c["first2"]]
+        wrong = [i for i in range(len(ev["calls"])) if i not in changed]
+        det = ""
+        if changed:
+            c = ev["calls"][changed[0]]
+            det = ("the result of call %d (%s) changed after later calls: handed out %s, later %s" % (
+                changed[0] + 1, c["op"], c["first"][:12], c["final"][:12]))
+        else:
+            det = "a result is not what the codec specifies (calls %s%s)" % (wrong[:3], ", failed" if ev["failed"] else "")
+        return ("codec results with a history: calls [%s]: %s" % (ops, det),
+                {"part": "codec", "kind": "history", "unstable": bool(changed),
+                 "op": ev["calls"][changed[0]]["op"] if changed else "", "failed": ev["failed"]})
     if k == "posthist":
         names = [] if ev["nil"] else ev["names"]
         got = ev["dec"]
@@ -280,6 +294,14 @@ def run(ctx):
         raise vlib.Infra("the post history machine printed only %d histories" % len(hist.cases))
     _model(ctx, "NameCodecPostHistMut.cfg", "NameCodec post object, caller writes into the shared slice (must fail)",
            expect_violation="SharedIntact")
+    ch_cfg = open(os.path.join(vlib.SPEC_DIR, "NameCodecCodecHist.cfg")).read().replace(
+        "CMaxOps = 2", "CMaxOps = %d" % ctx.pick(2, 3))
+    chist = _model(ctx, "NCc.cfg", "NameCodec codec results with history (all call histories of length %d)" % ctx.pick(2, 3),
+                   files={"NCc.cfg": ch_cfg})
+    if len(chist.cases) < 500:
+        raise vlib.Infra("the codec history machine printed only %d histories" % len(chist.cases))
+    _model(ctx, "NameCodecCodecHistReuse.cfg", "NameCodec codec results in a re-used scratch buffer (must fail)",
+           expect_violation="ResultsStable")
     _model(ctx, "NameCodecCodec.cfg", "NameCodec codec laws")
     _model(ctx, "NameCodecTags.cfg", "NameCodec tag mapping with private-use part")
     _model(ctx, "NameCodecTagsBare.cfg", "NameCodec tag mapping without private-use part (must fail)",
@@ -296,6 +318,8 @@ def run(ctx):
                 "with 3 strings per platform) incl. shared/prefix/suffix/cross-platform-equal encodings, every storage placement",
         "post": "3 standard names, 6 names per glyph, lists <= 4 (5 thorough), every re-use choice; object with history: "
                 "5 initial lists, all histories of 3 (4 thorough) calls of Encode/Read/Slice x4/Append x2/Mutate",
+        "codec_history": "all histories of 2 (3 thorough) calls of mac.Encode / mac.Decode / name.Info.Encode / name.Decode "
+                             "with argument lengths 0, 1, 63, 64, 65, 200",
         "codec": "10 boundary UTF-16 units, sequences <= 3; 15 boundary code points, sequences <= 2; all 256 bytes",
         "tags": "6 pairs with sibling scripts",
         "generated": "name.Info shapes <= 6 entries over 8 language x 10 id x 12 string classes; glyph lists <= 3 (4 "
@@ -304,7 +328,7 @@ def run(ctx):
 
     # 2. R: abstract inputs from TLC
     d = ctx.subdir("c14")
-    gens = list(hist.cases)
+    gens = list(hist.cases) + list(chist.cases)
     for cfg, kw in (("NameCodecGenNames1.cfg", {}), ("NameCodecGenUnits.cfg", {}),
                     ("NameCodecGenPost.cfg", {}),
                     ("NameCodecGenNames.cfg", {"workers": 1, "simulate": ctx.pick(1200, 12000), "depth": 20})):
